@@ -308,9 +308,13 @@ def check_property(pid, tier, seed, do_freeze=False, verbose=True):
     # contradicts the statement is a violation with a replay; finding none leaves the verdict UNDECIDED (exit 2).
     if undecided and not violations:
         seen_units = []
-        for u, ud in undecided:
+        # the undecided units first, then every other unit of the property (a change in one file can show through another unit's search)
+        order = [(u, ud) for u, ud in undecided] + [(r["unit"], undecided[0][1]) for r in results]
+        for u, ud in order:
             if u in seen_units or ud.get("reason") in ("vacuity-control",):
                 continue
+            if violations:
+                break
             seen_units.append(u)
             w = find_witness(u, {"item": None, "kind": "undecided", "message": ud.get("message") or ud.get("reason")})
             if w and w.get("found"):
